@@ -5,6 +5,10 @@ from .mutants import *
 def run(tier, seed):
     out = Outcome("C06", tier, seed, "exploration")
     cases, st, n_raw = mutation_cases("C06", tier, seed)
+    # the literal forms of C11 (over-long, empty, odd digit counts, 512-digit binary ...) are text entry points as well
+    from .progfam import tlc_family
+    lits, _ = tlc_family("C06", "literals", tier, seed)
+    cases = cases + [{"kind": "total", "entry": "program", "tokens": c["tokens"], "sep": " "} for c in lits]
     results = run_replay("C06", cases)
     calls = 0
     outcomes = {}
